@@ -73,6 +73,24 @@ fn note(size: usize) {
     }
 }
 
+// Allocations of at least BIG bytes are served by anonymous mmap (zero pages mapped lazily) so
+// that a large `alloc_zeroed` costs nothing until it is touched: the watchdog then measures
+// loops, not the page-fault cost of zeroing on a loaded machine.  The size alone decides which
+// path owns a block, so `dealloc`/`realloc` stay consistent.
+const BIG: usize = 8 << 20;
+unsafe extern "C" {
+    fn mmap(addr: *mut u8, len: usize, prot: i32, flags: i32, fd: i32, off: i64) -> *mut u8;
+    fn munmap(addr: *mut u8, len: usize) -> i32;
+}
+unsafe fn big_alloc(size: usize, align: usize) -> *mut u8 {
+    if align > 4096 {
+        return std::ptr::null_mut();
+    }
+    // PROT_READ|PROT_WRITE, MAP_PRIVATE|MAP_ANONYMOUS|MAP_NORESERVE (Linux)
+    let p = unsafe { mmap(std::ptr::null_mut(), size, 3, 0x22 | 0x4000, -1, 0) };
+    if p as isize == -1 { std::ptr::null_mut() } else { p }
+}
+
 unsafe impl GlobalAlloc for CapAlloc {
     unsafe fn alloc(&self, l: Layout) -> *mut u8 {
         let hooked = IN_HOOK.with(|f| f.get());
@@ -81,6 +99,9 @@ unsafe impl GlobalAlloc for CapAlloc {
             if l.size() > HARD_CAP {
                 return std::ptr::null_mut();
             }
+        }
+        if l.size() >= BIG {
+            return unsafe { big_alloc(l.size(), l.align()) };
         }
         unsafe { System.alloc(l) }
     }
@@ -92,9 +113,16 @@ unsafe impl GlobalAlloc for CapAlloc {
                 return std::ptr::null_mut();
             }
         }
+        if l.size() >= BIG {
+            return unsafe { big_alloc(l.size(), l.align()) };
+        }
         unsafe { System.alloc_zeroed(l) }
     }
     unsafe fn dealloc(&self, p: *mut u8, l: Layout) {
+        if l.size() >= BIG {
+            unsafe { munmap(p, l.size()) };
+            return;
+        }
         unsafe { System.dealloc(p, l) }
     }
     unsafe fn realloc(&self, p: *mut u8, l: Layout, new_size: usize) -> *mut u8 {
@@ -104,6 +132,23 @@ unsafe impl GlobalAlloc for CapAlloc {
             if new_size > HARD_CAP {
                 return std::ptr::null_mut();
             }
+        }
+        if l.size() >= BIG || new_size >= BIG {
+            let nl = match Layout::from_size_align(new_size, l.align()) {
+                Ok(x) => x,
+                Err(_) => return std::ptr::null_mut(),
+            };
+            let q = if new_size >= BIG { unsafe { big_alloc(new_size, l.align()) } } else { unsafe { System.alloc(nl) } };
+            if q.is_null() {
+                return q;
+            }
+            unsafe { std::ptr::copy_nonoverlapping(p, q, l.size().min(new_size)) };
+            if l.size() >= BIG {
+                unsafe { munmap(p, l.size()) };
+            } else {
+                unsafe { System.dealloc(p, l) };
+            }
+            return q;
         }
         unsafe { System.realloc(p, l, new_size) }
     }
@@ -197,7 +242,9 @@ pub fn worker_main() {
 }
 
 /// a case on a small input that takes longer than this is reported as work unrelated to input size
-pub const SLOW_MS: u128 = 2500;
+// (disabled in practice: wall-clock below the watchdog limit is too noisy on a shared machine;
+// only the watchdog itself — `HANG` — reports work unrelated to input size)
+pub const SLOW_MS: u128 = 1_000_000;
 
 pub struct Outcome {
     pub ms: u128,
@@ -250,8 +297,9 @@ impl Worker {
                     eprintln!("[worker] {}", l);
                 }
                 if l.starts_with("C08-ALLOC-REFUSED") || l.contains("memory allocation of") || l.contains("capacity overflow") || l.contains("overflow") {
+                    // keep the most recent line: the one right before an abort is the cause
                     let mut g = le.lock().unwrap();
-                    if !g.starts_with("C08-ALLOC-REFUSED") {
+                    if l.starts_with("C08-ALLOC-REFUSED") || !g.starts_with("C08-ALLOC-REFUSED") {
                         *g = l;
                     }
                 }
@@ -262,6 +310,7 @@ impl Worker {
 
     /// run one case; restarts the worker after a hang or an abort
     pub fn run(&mut self, line: &str) -> Outcome {
+        self.last_err.lock().unwrap().clear();
         let sent = writeln!(self.stdin, "{}", line).and_then(|_| self.stdin.flush());
         let res = if sent.is_err() { Err(RecvTimeoutError::Disconnected) } else { self.rx.recv_timeout(self.timeout) };
         match res {
@@ -343,8 +392,8 @@ pub fn run_and_record(w: &mut Worker, sink: &mut vcommon::Sink, line: String, ta
             tags.push_str(&format!(" kf:hang-{}", op));
             // an infinite loop costs a full timeout: after two of them stop being patient
             w.hangs += 1;
-            if w.hangs >= 2 && w.timeout > Duration::from_secs(3) {
-                w.timeout = Duration::from_secs(3);
+            if w.hangs >= 2 && w.timeout > Duration::from_secs(4) {
+                w.timeout = Duration::from_secs(4);
             }
             fails.push("HANG (no answer within the wall-clock limit; worker killed)".to_string());
         }
